@@ -230,6 +230,29 @@ def write_evidence(prop, tier, seed, level, coverage, assumptions, wall_s, viola
     return ev
 
 
+def confirm_race(prop, exe, failure, extra=(), attempts=6):
+    """A sanitizer report from real-thread execution: timing dependent, so replay repeats the program with
+    other injected delays. Reproduced -> the case is the replay file; otherwise the report itself is kept."""
+    text = failure.get("case_text")
+    oc = failure["outcome"]
+    log = failure.get("log_tail", "")
+    if text:
+        tmp = os.path.join(SCRATCH, "lcdb-verif-confirm.%d.case" % os.getpid())
+        with open(tmp, "w") as f:
+            f.write(text)
+        for _ in range(attempts):
+            r = run_replay(exe, tmp, extra, timeout=300)
+            if r[0] == "sanitizer":
+                os.unlink(tmp)
+                path = save_replay(prop, text)
+                with open(path + ".report.txt", "w") as f:
+                    f.write(log)
+                return True, path, r, prop
+        os.unlink(tmp)
+    path = save_replay(prop, (text or "") + "\n# sanitizer report (not reproduced in %d replays):\n# " % attempts + log.replace("\n", "\n# "), ".report.case")
+    return True, path, oc, prop
+
+
 def confirm_and_report(prop, exe, failure, extra=(), ddmin=True):
     """Shrink, save, replay 3x. Returns (is_violation, replay_path, outcome)."""
     text = failure.get("case_text")
